@@ -935,6 +935,29 @@ Proof.
   intros ents snap n H. unfold reg_event, reg_after. rewrite (slookup_healthy snap n H). split; reflexivity.
 Qed.
 
+(** however many generations are stored one after the other (an update storm), the live instance
+    is the one stored last, and every stored generation was live exactly in the order of the stores:
+    generations never go backwards *)
+Lemma last_cons {A} : forall (t : list A) g d, last (g :: t) d = last t g.
+Proof.
+  induction t as [|m t IH]; intros g d; [reflexivity|].
+  change (last (g :: m :: t) d) with (last (m :: t) d). rewrite (IH m d), (IH m g). reflexivity.
+Qed.
+
+Theorem update_storm_last_wins : forall g0 gs,
+  mw_inst (mx_run (mx_init g0) (map LStore gs)) = last gs g0 /\
+  mw_hist (mx_run (mx_init g0) (map LStore gs)) = rev gs ++ [g0].
+Proof.
+  intros g0 gs. unfold mx_run.
+  assert (G : forall gs w, mw_inst (fold_left mx_step (map LStore gs) w) = last gs (mw_inst w) /\
+                           mw_hist (fold_left mx_step (map LStore gs) w) = rev gs ++ mw_hist w).
+  { clear gs. intro gs. induction gs as [|g t IH]; intro w; [split; reflexivity|].
+    destruct (IH (mx_step w (LStore g))) as [A B]. cbn [map fold_left]. split.
+    - rewrite A. cbn [mx_step mw_inst]. symmetry. apply last_cons.
+    - rewrite B. cbn [mx_step mw_hist rev]. rewrite <- app_assoc. reflexivity. }
+  destruct (G gs (mx_init g0)) as [A B]. split; assumption.
+Qed.
+
 (** * The composite statements registered in props/C11.v *)
 
 Theorem old_generation_completes :
